@@ -117,6 +117,7 @@ pub fn gen_case(t: &mut Tape) -> Case {
     prog.mods[obs].impls.push(Impl {
         ty: "Obs".into(),
         funcs: vec![Func {
+            sty: 0,
             vis: true,
             name: "m".into(),
             doc: vec![],
